@@ -21,7 +21,11 @@ MANIFEST = dict(
              "parsing the line produced by the library generator or by csv.writer (QUOTE_MINIMAL) returns exactly the row; "
              "unbounded in row and field length. The model of parse_complex_csv_line is compared with the real function on "
              "generated and random lines (str and bytes), and the statement itself is executed on the implementation "
-             "(random + exhaustive small scope).",
+             "(random + exhaustive small scope). The reader side of the same round trip is proved in Props/C14.lean over a model of "
+             "csv.reader (CPython _csv.c state machine, strict): C14_agrees_with_csv_reader / C14_agrees_with_csv_reader_writer (on these "
+             "lines csv.reader returns the row too; the library generator's blank line for the row [''] excepted) and "
+             "C14_reader_vs_parse (on arbitrary physical lines the two parsers differ only on an unterminated quoted field, on a "
+             "blank line and in the exception class).",
         note="csv.writer's quoting decision is modelled (validated by a stream); bytes are modelled as characters 0..255.",
         design_ref="5/C13",
 )
